@@ -456,6 +456,18 @@ class TimingMonitor:
         self.n_checked = 0
 
     def __call__(self, action, events, world, err, need_zero0):
+        # tm is compared with the machine start as it is stored at the END of the call: state calls made before the
+        # machine was stopped (done()) inside this very call belong to the run that ended and are not compared
+        stops = [j for j, ev in enumerate(events) if ev[0] == "call" and ev[1] == "done"]
+        last_stop = stops[-1] if stops else -1
+        err_ = err
+
+        def err(rule, msg, site=None, _at=[None]):
+            if rule == "C03.T1" and _at[0] is not None and _at[0] < last_stop and "received tm=" in msg:
+                return
+            err_(rule, msg, site)
+
+        self._at = err.__defaults__[1]
         slots = numeric_slots(world)
         changed = {p for p, v in slots.items() if not (isinstance(v, Sym) and v.name in ("old:" + p, "forever:" + p))}
         iter_api = "on_iteration" if self.base != "StateMachine" else "execute"
@@ -471,7 +483,8 @@ class TimingMonitor:
         engine_done = False
         first = [s.name for s in self.specs.values() if s.first][0]
         m = world["machine"]
-        for ev in events:
+        for j_, ev in enumerate(events):
+            self._at[0] = j_
             k = ev[0]
             if k == "call":
                 _, api, args, ctx, d, owner = ev
@@ -494,6 +507,7 @@ class TimingMonitor:
                         cause[tgt] = ("request",)
                 if api == "done" and in_iter:
                     waived.update(entries)  # a stopped machine need not keep the records of the run that ended
+                    restarted = True  # stopped inside this iteration: a later request in it starts the machine (and its clock) again
                 if api == "done" and in_iter and ctx == "engine":
                     engine_done = True
             elif k == "ret" and ev[1] == "execute":
@@ -501,7 +515,7 @@ class TimingMonitor:
                 if depth == 0:
                     in_iter = False
             elif k == "clock":
-                clocks.setdefault(ev[2], ev[1])
+                clocks[ev[2]] = ev[1]  # the clock read of the execute() that is running at this depth now
             elif k == "cmp_true" and in_iter:
                 last_lin = ev[2]
             elif k == "run" and in_iter:
@@ -595,8 +609,10 @@ class TimingMonitor:
                 self.role_f2.setdefault(S, set()).update(f2)
         # ---- state_tm >= 0: the machine clock is only restarted under states that are entered afresh
         if self.role_f0 in changed and action[0] in ("execute", "on_iteration"):
-            for ev in events:
-                if ev[0] == "run" and ev[5] == 1 and ev[1] in self.specs and self.specs[ev[1]].kind != "default" and ev[4] is False:
+            # (the state that is still current when the iteration ends: the last one that ran)
+            runs_ = [ev for ev in events if ev[0] == "run" and ev[1] in self.specs]
+            for ev in runs_[-1:]:
+                if self.specs[ev[1]].kind != "default" and ev[4] is False:
                     err("C02.T5", f"the machine start instant ({self.role_f0}) is re-based in an iteration that goes on running state '{ev[1]}' without entering it afresh: its entry time and expiry are in the old time base, so state_tm turns negative and the state outlasts its duration", ev[6])
                     break
         # ---- who may write
